@@ -26,6 +26,21 @@ for dp, _, fs in os.walk(SRC):
             elif isinstance(n, ast.AnnAssign) and isinstance(n.target, ast.Name) and n.value is not None: tg, val = n.target.id, n.value
             if tg and is_mutable_ctor(val): containers.add(tg)
         bad = []
+        # class-level mutable attributes (shared by all instances) that a method mutates through self / cls / the class name without ever rebinding them per instance
+        for cd in [x for x in ast.walk(tree) if isinstance(x, ast.ClassDef)]:
+            cattrs = set()
+            for n in cd.body:
+                if isinstance(n, ast.Assign) and len(n.targets) == 1 and isinstance(n.targets[0], ast.Name) and is_mutable_ctor(n.value): cattrs.add(n.targets[0].id)
+                elif isinstance(n, ast.AnnAssign) and isinstance(n.target, ast.Name) and n.value is not None and is_mutable_ctor(n.value): cattrs.add(n.target.id)
+            if not cattrs: continue
+            rebound = {n.attr for n in ast.walk(cd) if isinstance(n, ast.Attribute) and isinstance(n.ctx, ast.Store) and isinstance(n.value, ast.Name) and n.value.id == "self"}
+            def shared(e):            # self.X / cls.X / ClassName.X / type(self).X / self.__class__.X with X a class-level container never rebound on the instance
+                return isinstance(e, ast.Attribute) and e.attr in cattrs and e.attr not in rebound and ast.unparse(e.value) in ("self", "cls", cd.name, "type(self)", "self.__class__")
+            for fn in [x for x in ast.walk(cd) if isinstance(x, (ast.FunctionDef, ast.AsyncFunctionDef))]:
+                for n in ast.walk(fn):
+                    if isinstance(n, ast.Subscript) and isinstance(n.ctx, (ast.Store, ast.Del)) and shared(n.value): bad.append(f"{cd.name}.{fn.name}: {ast.unparse(n.value)}[...] = ... (class-level container)")
+                    if isinstance(n, ast.AugAssign) and shared(n.target): bad.append(f"{cd.name}.{fn.name}: {ast.unparse(n.target)} op= ... (class-level container)")
+                    if isinstance(n, ast.Call) and isinstance(n.func, ast.Attribute) and n.func.attr in MUTATORS and shared(n.func.value): bad.append(f"{cd.name}.{fn.name}: {ast.unparse(n.func.value)}.{n.func.attr}(...) (class-level container)")
         for fn in [x for x in ast.walk(tree) if isinstance(x, (ast.FunctionDef, ast.AsyncFunctionDef))]:
             for n in ast.walk(fn):
                 if isinstance(n, ast.Global): bad.append(f"{fn.name}: global {', '.join(n.names)}")
@@ -35,7 +50,7 @@ for dp, _, fs in os.walk(SRC):
             for d in fn.decorator_list:       # memoising decorators keep per-process state as well
                 dn = ast.unparse(d)
                 if any(k in dn for k in ("lru_cache", "functools.cache", "cached_property", "memoize")) or dn == "cache": bad.append(f"{fn.name}: @{dn}")
-        ob(f"{mod}.frame.no_module_level_mutable_state", not bad, "functions that keep state in a module-level object: " + "; ".join(sorted(set(bad))) if bad else "")
+        ob(f"{mod}.frame.no_module_level_mutable_state", not bad, "functions that keep state in a module-level or class-level object shared between instances: " + "; ".join(sorted(set(bad))) if bad else "")
 rep = {"target": "global_state", "unit": "global_state", "results": results, "error": None, "paths": len(results), "pruned": 0,
        "function": {"name": "module-level mutable state scan over every module of the package", "lines": [0, 0], "sha256": ""}, "wall_s": round(time.time() - t0, 3)}
 sys.stdout.write("\n@@REPORT@@" + json.dumps(rep) + "\n")
